@@ -695,15 +695,19 @@ func (g *Gen) Split(b []byte) enc.Wire {
 	return w
 }
 
-// emitEW: for a nocopy model, the wire as returned by Encode (buffer boundaries) and Init's wirePlan, with the value
-// printed with the segmentation of its wire fields.
-func (e *Entry) emitEW(w *bufio.Writer, p reflect.Value, er EncResult) {
+// DumpSegs prints the value with the segmentation of its wire fields (W[..]); to be taken BEFORE Encode, whose Init
+// rewrites an Interest name (digest component).
+func (e *Entry) DumpSegs(p reflect.Value) string {
+	dumpSegs = true
+	defer func() { dumpSegs = false }()
+	return e.DumpStruct(p)
+}
+
+// emitEW: for a nocopy model, the wire as returned by Encode (buffer boundaries) and Init's wirePlan.
+func (e *Entry) emitEW(w *bufio.Writer, vsegs string, er EncResult) {
 	if !e.M.NoCopy {
 		return
 	}
-	dumpSegs = true
-	vsegs := e.DumpStruct(p)
-	dumpSegs = false
 	plan := make([]string, len(er.Plan))
 	for i, x := range er.Plan {
 		plan[i] = strconv.FormatUint(x, 10)
